@@ -7,6 +7,8 @@
 -/
 import ZodbModel.Undo
 import ZodbModel.History
+import Proofs.Undo
+import Proofs.FileStoreHistory
 namespace Proofs.Links
 open ZodbModel
 
@@ -29,7 +31,7 @@ def firstRec (oid : Nat) : List Undo.Rec → Option (Undo.Rec × List Undo.Rec)
   | [] => none
   | r :: older => if r.oid = oid then some (r, older) else firstRec oid older
 
-theorem lastPos_le (oid : Nat) (F : List Undo.Rec) : Undo.lastPos oid F ≤ F.length := by
+theorem lastPos_le' (oid : Nat) (F : List Undo.Rec) : Undo.lastPos oid F ≤ F.length := by
   induction F with
   | nil => simp [Undo.lastPos]
   | cons r older ih =>
@@ -46,7 +48,7 @@ theorem load_eq_firstRec (oid : Nat) (F : List Undo.Rec) :
     by_cases h : r.oid = oid
     · simp [h, Undo.loadAt]
     · simp only [h, if_false]
-      have := lastPos_le oid older
+      have := lastPos_le' oid older
       simp only [Undo.loadAt]
       rw [if_neg (by omega)]
       exact ih
@@ -125,5 +127,275 @@ theorem dataOf_absU (L : Undo.Log) (oid : Nat) :
     | none =>
       simp only [Option.map_none, Option.toList_none, List.map_nil, List.append_nil]
       exact ih
+
+
+/-! ### the `prev` chain: `loadBefore` and `loadSerial` of the undo model are the `History` queries -/
+
+/-- what the walks need of a log: a record carries its transaction's tid, `prev` is the index
+    entry at the time of writing, tids grow.  (`Undo.Inv` minus the payload conditions, with the
+    `prev` condition for EVERY transaction: pack writes `prev = 0` into the records it copies.) -/
+def ChainInv : Undo.Log → Prop
+  | [] => True
+  | t :: older =>
+    (∀ r ∈ t.recs, r.tid = t.tid ∧ r.prev = Undo.lastPos r.oid (Undo.flat older)) ∧
+    (∀ t' ∈ older, t'.tid < t.tid) ∧ ChainInv older
+
+theorem chainInv_of_inv {L : Undo.Log} (h : Undo.Inv L) (hp : ∀ t ∈ L, t.packed = false) : ChainInv L := by
+  induction L with
+  | nil => trivial
+  | cons t older ih =>
+    obtain ⟨h1, h2, _, h4⟩ := h
+    refine ⟨fun r hr => ?_, h2, ih h4 (fun x hx => hp x (List.mem_cons_of_mem _ hx))⟩
+    obtain ⟨a, b, _⟩ := h1 r hr
+    exact ⟨a, b (hp t List.mem_cons_self)⟩
+
+/-- revisions of `oid`, newest first: per transaction its newest record of `oid`, with all records below it -/
+def revU (oid : Nat) : Undo.Log → List (Undo.Rec × List Undo.Rec)
+  | [] => []
+  | t :: older =>
+    match firstRec oid t.recs with
+    | some ro => (ro.1, ro.2 ++ Undo.flat older) :: revU oid older
+    | none => revU oid older
+
+def toRevU (rb : Undo.Rec × List Undo.Rec) : History.Rev :=
+  ⟨rb.1.tid, [], [], [], ⟨rb.1.oid, Undo.recData rb.2 rb.1, Undo.dataTxn rb.2 rb.1⟩⟩
+
+theorem firstRec_some {oid : Nat} {rs : List Undo.Rec} {r : Undo.Rec} {o : List Undo.Rec}
+    (h : firstRec oid rs = some (r, o)) :
+    ∃ N, rs = N ++ r :: o ∧ (∀ x ∈ N, x.oid ≠ oid) ∧ r.oid = oid := by
+  induction rs with
+  | nil => simp [firstRec] at h
+  | cons a rs ih =>
+    simp only [firstRec] at h
+    by_cases ha : a.oid = oid
+    · simp only [ha, if_true, Option.some.injEq, Prod.mk.injEq] at h
+      obtain ⟨rfl, rfl⟩ := h
+      exact ⟨[], rfl, fun x hx => absurd hx (List.not_mem_nil), ha⟩
+    · simp only [ha, if_false] at h
+      obtain ⟨N, h1, h2, h3⟩ := ih h
+      refine ⟨a :: N, by rw [h1]; rfl, ?_, h3⟩
+      intro x hx
+      rcases List.mem_cons.1 hx with rfl | hx
+      · exact ha
+      · exact h2 x hx
+
+theorem firstRec_none {oid : Nat} {rs : List Undo.Rec} (h : firstRec oid rs = none) :
+    ∀ x ∈ rs, x.oid ≠ oid := by
+  induction rs with
+  | nil => intro x hx; cases hx
+  | cons a rs ih =>
+    simp only [firstRec] at h
+    by_cases ha : a.oid = oid
+    · simp [ha] at h
+    · simp only [ha, if_false] at h
+      intro x hx
+      rcases List.mem_cons.1 hx with rfl | hx
+      · exact ha
+      · exact ih h x hx
+
+theorem revU_tid {oid : Nat} {L : Undo.Log} (h : ChainInv L) :
+    ∀ rb ∈ revU oid L, ∃ t ∈ L, rb.1.tid = t.tid := by
+  induction L with
+  | nil => intro rb hrb; cases hrb
+  | cons t older ih =>
+    intro rb hrb
+    simp only [revU] at hrb
+    cases h1 : firstRec oid t.recs with
+    | none =>
+      rw [h1] at hrb
+      obtain ⟨t', ht', e⟩ := ih h.2.2 rb hrb
+      exact ⟨t', List.mem_cons_of_mem _ ht', e⟩
+    | some ro =>
+      rw [h1] at hrb
+      rcases List.mem_cons.1 hrb with rfl | hrb
+      · obtain ⟨r, o⟩ := ro
+        obtain ⟨N, hN, _, _⟩ := firstRec_some h1
+        have : r ∈ t.recs := by rw [hN]; simp
+        exact ⟨t, List.mem_cons_self, (h.1 r this).1⟩
+      · obtain ⟨t', ht', e⟩ := ih h.2.2 rb hrb
+        exact ⟨t', List.mem_cons_of_mem _ ht', e⟩
+
+theorem revU_desc {oid : Nat} {L : Undo.Log} (h : ChainInv L) :
+    Proofs.FileStoreHistory.Desc ((revU oid L).map toRevU) := by
+  induction L with
+  | nil => exact List.Pairwise.nil
+  | cons t older ih =>
+    simp only [revU]
+    cases h1 : firstRec oid t.recs with
+    | none => exact ih h.2.2
+    | some ro =>
+      simp only [List.map_cons]
+      refine List.pairwise_cons.2 ⟨?_, ih h.2.2⟩
+      intro x hx
+      obtain ⟨rb, hrb, rfl⟩ := List.mem_map.1 hx
+      obtain ⟨t', ht', e⟩ := revU_tid h.2.2 rb hrb
+      obtain ⟨r, o⟩ := ro
+      obtain ⟨N, hN, _, _⟩ := firstRec_some h1
+      have hr : r ∈ t.recs := by rw [hN]; simp
+      have := h.2.1 t' ht'
+      show rb.1.tid < r.tid
+      rw [e, (h.1 r hr).1]; exact this
+
+theorem revs_absU {oid : Nat} {L : Undo.Log} (h : ChainInv L) :
+    History.revs (absU L) oid = ((revU oid L).map toRevU).reverse := by
+  induction L with
+  | nil => rfl
+  | cons t older ih =>
+    simp only [absU, revs_append, ih h.2.2, revU]
+    have hr := recOf_absTxnU older t oid
+    have hrev : History.revs [absTxnU older t] oid =
+        ((absTxnU older t).recOf oid).toList.map (fun r => ⟨t.tid, [], [], [], r⟩) := by
+      simp only [History.revs, List.filterMap_cons, List.filterMap_nil]
+      cases (absTxnU older t).recOf oid <;> rfl
+    rw [hrev, hr]
+    cases h1 : firstRec oid t.recs with
+    | none => simp
+    | some ro =>
+      obtain ⟨r, o⟩ := ro
+      obtain ⟨N, hN, _, _⟩ := firstRec_some h1
+      have hmem : r ∈ t.recs := by rw [hN]; simp
+      simp only [Option.map_some, Option.toList_some, List.map_cons, List.map_nil, List.reverse_cons,
+        toRevU, (h.1 r hmem).1]
+
+theorem revU_nil_iff (oid : Nat) (L : Undo.Log) :
+    revU oid L = [] ↔ Undo.lastPos oid (Undo.flat L) = 0 := by
+  induction L with
+  | nil => simp [revU, Undo.flat, Undo.lastPos]
+  | cons t older ih =>
+    simp only [revU, Undo.flat]
+    cases h1 : firstRec oid t.recs with
+    | none =>
+      rw [Proofs.Undo.lastPos_append_of_not_mem oid _ _ (firstRec_none h1)]
+      exact ih
+    | some ro =>
+      obtain ⟨r, o⟩ := ro
+      obtain ⟨N, hN, _, hro⟩ := firstRec_some h1
+      simp only [List.cons_ne_nil, false_iff]
+      intro hz
+      have := (Proofs.Undo.lastPos_eq_zero_iff oid _).1 hz r (by rw [hN]; simp)
+      exact this hro
+
+/-- the answer of `chaseBefore`, computed from the walk over the revisions -/
+def lbOfWalk : Option ((Undo.Rec × List Undo.Rec) × Option Nat) → Undo.LB
+  | none => .noRev
+  | some (rb, e) =>
+    match Undo.recData rb.2 rb.1 with
+    | some d => .found d rb.1.tid e
+    | none => .keyError
+
+theorem chaseBefore_walk {oid : Nat} {L : Undo.Log} (h : ChainInv L) (b : Nat) (e : Option Nat) :
+    Undo.chaseBefore b (Undo.flat L) (Undo.lastPos oid (Undo.flat L)) e =
+      lbOfWalk (FileStore.loadBeforeGo (fun rb : Undo.Rec × List Undo.Rec => rb.1.tid) b e (revU oid L)) := by
+  induction L generalizing e with
+  | nil => rfl
+  | cons t older ih =>
+    simp only [Undo.flat, revU]
+    cases h1 : firstRec oid t.recs with
+    | none =>
+      rw [Proofs.Undo.lastPos_append_of_not_mem oid _ _ (firstRec_none h1),
+        Proofs.Undo.chaseBefore_append_le _ _ _ _ _ (Proofs.Undo.lastPos_le _ _)]
+      exact ih h.2.2 e
+    | some ro =>
+      obtain ⟨r, o⟩ := ro
+      obtain ⟨N, hN, hNo, hro⟩ := firstRec_some h1
+      have hmem : r ∈ t.recs := by rw [hN]; simp
+      have hprev := (h.1 r hmem).2
+      rw [hro] at hprev
+      have hflat : t.recs ++ Undo.flat older = N ++ (r :: (o ++ Undo.flat older)) := by
+        rw [hN]; simp
+      have hlp : Undo.lastPos oid (N ++ (r :: (o ++ Undo.flat older))) = (o ++ Undo.flat older).length + 1 := by
+        rw [Proofs.Undo.lastPos_append_of_not_mem oid _ _ hNo]
+        simp [Undo.lastPos, hro]
+      rw [hflat, hlp, Proofs.Undo.chaseBefore_append_le _ _ _ _ _ (by simp)]
+      simp only [Undo.chaseBefore, if_true, FileStore.loadBeforeGo]
+      by_cases hb : r.tid < b
+      · simp only [hb, if_true, lbOfWalk, Undo.recData]
+        cases r.pl with
+        | data d => rfl
+        | back bp =>
+          simp only
+          cases Undo.loadBack (o ++ Undo.flat older) bp with
+          | none => rfl
+          | some dt => rfl
+      · simp only [hb, if_false]
+        rw [hprev, Proofs.Undo.chaseBefore_append_le _ _ _ _ _ (Proofs.Undo.lastPos_le _ _)]
+        exact ih h.2.2 _
+
+def lbU : Undo.LB → Except History.Err (Option (Bytes × Nat × Option Nat))
+  | .keyError => .error .keyError
+  | .noRev => .ok none
+  | .found d t e => .ok (some (d, t, e))
+
+theorem loadBefore_absU {L : Undo.Log} (h : ChainInv L) (oid b : Nat) :
+    History.loadBefore (absU L) oid b = lbU (Undo.loadBefore (Undo.flat L) oid b) := by
+  rw [Proofs.FileStoreHistory.loadBefore_walk (revs_absU h) (revU_desc h) b]
+  unfold Undo.loadBefore
+  by_cases hz : Undo.lastPos oid (Undo.flat L) = 0
+  · have := (revU_nil_iff oid L).2 hz
+    simp [hz, this, lbU]
+  · have hne : revU oid L ≠ [] := fun e => hz ((revU_nil_iff oid L).1 e)
+    have hE : ((revU oid L).map toRevU).isEmpty = false := by
+      cases hh : revU oid L with
+      | nil => exact absurd hh hne
+      | cons a l => rfl
+    rw [if_neg hz, chaseBefore_walk h b none, hE]
+    simp only [Bool.false_eq_true, if_false]
+    rw [Proofs.FileStoreHistory.loadBeforeGo_map toRevU (fun rb => rb.1.tid) History.Rev.tid (fun _ => rfl)]
+    cases FileStore.loadBeforeGo (fun rb : Undo.Rec × List Undo.Rec => rb.1.tid) b none (revU oid L) with
+    | none => rfl
+    | some ae =>
+      obtain ⟨rb, e⟩ := ae
+      simp only [Option.map_some, lbOfWalk, toRevU]
+      cases Undo.recData rb.2 rb.1 <;> rfl
+
+theorem chaseSerial_walk {oid : Nat} {L : Undo.Log} (h : ChainInv L) (s : Nat) :
+    Undo.chaseSerial s (Undo.flat L) (Undo.lastPos oid (Undo.flat L)) =
+      (FileStore.loadSerialGo (fun rb : Undo.Rec × List Undo.Rec => rb.1.tid) s (revU oid L)).bind
+        (fun rb => Undo.recData rb.2 rb.1) := by
+  induction L with
+  | nil => rfl
+  | cons t older ih =>
+    simp only [Undo.flat, revU]
+    cases h1 : firstRec oid t.recs with
+    | none =>
+      rw [Proofs.Undo.lastPos_append_of_not_mem oid _ _ (firstRec_none h1),
+        Proofs.Undo.chaseSerial_append_le _ _ _ _ (Proofs.Undo.lastPos_le _ _)]
+      exact ih h.2.2
+    | some ro =>
+      obtain ⟨r, o⟩ := ro
+      obtain ⟨N, hN, hNo, hro⟩ := firstRec_some h1
+      have hmem : r ∈ t.recs := by rw [hN]; simp
+      have hprev := (h.1 r hmem).2
+      rw [hro] at hprev
+      have hflat : t.recs ++ Undo.flat older = N ++ (r :: (o ++ Undo.flat older)) := by
+        rw [hN]; simp
+      have hlp : Undo.lastPos oid (N ++ (r :: (o ++ Undo.flat older))) = (o ++ Undo.flat older).length + 1 := by
+        rw [Proofs.Undo.lastPos_append_of_not_mem oid _ _ hNo]
+        simp [Undo.lastPos, hro]
+      rw [hflat, hlp, Proofs.Undo.chaseSerial_append_le _ _ _ _ (by simp)]
+      simp only [Undo.chaseSerial, if_true, FileStore.loadSerialGo]
+      by_cases hs : r.tid = s
+      · simp [hs]
+      · simp only [hs, if_false]
+        by_cases hlt : r.tid < s
+        · simp [hlt]
+        · simp only [hlt, if_false]
+          rw [hprev, Proofs.Undo.chaseSerial_append_le _ _ _ _ (Proofs.Undo.lastPos_le _ _)]
+          exact ih h.2.2
+
+theorem loadSerial_absU {L : Undo.Log} (h : ChainInv L) (oid s : Nat) :
+    History.loadSerial (absU L) oid s =
+      (match Undo.loadSerial (Undo.flat L) oid s with
+       | some d => .ok d
+       | none => .error .keyError) := by
+  rw [Proofs.FileStoreHistory.loadSerial_walk (revs_absU h) (revU_desc h) s]
+  unfold Undo.loadSerial
+  rw [chaseSerial_walk h s,
+    Proofs.FileStoreHistory.loadSerialGo_map toRevU (fun rb => rb.1.tid) History.Rev.tid (fun _ => rfl)]
+  cases FileStore.loadSerialGo (fun rb : Undo.Rec × List Undo.Rec => rb.1.tid) s (revU oid L) with
+  | none => rfl
+  | some rb =>
+    simp only [Option.map_some, Option.bind_some, toRevU]
+    cases Undo.recData rb.2 rb.1 <;> rfl
 
 end Proofs.Links
